@@ -288,12 +288,23 @@ func cmdCheck(args []string) int {
 		slowest = slowest[:5]
 	}
 	otherProp := 0
+	callerTags := map[string][]string{}
+	for _, fr := range rr.Funcs {
+		if fr.Contract != nil {
+			callerTags[fr.Func] = fr.Contract.Tags
+		}
+	}
 	for _, k := range order {
 		ks := keys[k]
-		// a clause tagged for other properties only is reported by those properties' checks
+		// a clause tagged for other properties only is reported by those properties' checks ...
 		if (ks.Kind == "ensures" || ks.Kind == "assert-at" || ks.Kind == "lemma" || strings.HasPrefix(ks.Kind, "requires@call")) && len(ks.Tags) > 0 && !hasTag(ks.Tags, *prop) {
-			otherProp += ks.Instances
-			continue
+			// ... except a callee's precondition at a call site of a function that belongs to THIS property: the callee's
+			// own property may not have the caller in its cone, and an unmet precondition makes everything this function
+			// concludes from the callee's postconditions unfounded
+			if !(strings.HasPrefix(ks.Kind, "requires@call") && hasTag(callerTags[ks.Func], *prop)) {
+				otherProp += ks.Instances
+				continue
+			}
 		}
 		if len(ks.Failed) == 0 {
 			nObl += ks.Instances
@@ -352,9 +363,22 @@ func cmdCheck(args []string) int {
 	ledgerPath := filepath.Join(*verif, "ledger", *prop+".txt")
 	if *updateLedger {
 		os.MkdirAll(filepath.Dir(ledgerPath), 0o755)
+		// the ledger holds the obligations that BELONG to this property: clauses tagged with it and every obligation of a
+		// function (or lemma) whose contract carries the tag. Obligations of functions that are in the cone only as
+		// dependencies of other properties' clauses are left out: whether they are generated depends on those contracts.
+		funcTags := map[string][]string{}
+		for _, fr := range rr.Funcs {
+			if fr.Contract != nil {
+				funcTags[fr.Func] = fr.Contract.Tags
+			}
+		}
 		var sb strings.Builder
 		for _, k := range order {
-			if len(keys[k].Failed) == 0 {
+			ks := keys[k]
+			if len(ks.Failed) != 0 {
+				continue
+			}
+			if hasTag(ks.Tags, *prop) || hasTag(funcTags[ks.Func], *prop) {
 				sb.WriteString(k + "\n")
 			}
 		}
